@@ -5,8 +5,8 @@
   `fix: http_no_proxy … without http_proxy_host` and `fix: proxy URL … user name but no password`.
 
   Trusted base of this file.  `urlparse` of the environment value is `Model.Url.urlsplit`
-  (netloc-derived attributes do not depend on the `;params` split); `unquote` is the identity
-  (values containing "%" are outside the alphabet: the driver answers `unmodelled`);
+  (netloc-derived attributes do not depend on the `;params` split); `unquote` is `Proxy.unquote`
+  (escapes that decode to a byte ≥ 0x80, and "%" outside the userinfo, are outside the alphabet: the driver answers `unmodelled`);
   `str.encode()` of credentials is ASCII; `base64.encodebytes(..).strip()…replace("\n","")`
   is `B64.encode`; `recv_line` reads up to "\n", end of stream before that raises CLOSED;
   `bytes.decode("utf-8")` is the identity on ASCII; `int()` on ASCII digit strings only.
@@ -46,6 +46,26 @@ structure Choice where
 
 def direct : Choice := ⟨none, some 0, none⟩
 
+/-- `urllib.parse.unquote` on a string whose escapes decode to ASCII (the driver answers `unmodelled` otherwise: bytes
+    ≥ 0x80 go through a UTF-8 decoder with replacement): `%XX` with two hex digits becomes that character, anything else is
+    kept as it is. -/
+def unquote : Str → Str
+  | [] => []
+  | '%' :: a :: b :: rest =>
+    match hexVal a, hexVal b with
+    | some x, some y => Char.ofNat (16 * x + y) :: unquote rest
+    | _, _ => '%' :: unquote (a :: b :: rest)
+  | c :: rest => c :: unquote rest
+
+/-- every escape of `s` decodes to an ASCII character. -/
+def unquoteModelled : Str → Bool
+  | [] => true
+  | '%' :: a :: b :: rest =>
+    match hexVal a, hexVal b with
+    | some x, some _ => x < 8 && unquoteModelled rest
+    | _, _ => unquoteModelled (a :: b :: rest)
+  | _ :: rest => unquoteModelled rest
+
 /-- `urlparse(value)` → (hostname, port, auth) as `get_proxy_info` uses them. -/
 def envProxyParse (v6ok : Str → Bool) (value : Str) : Except Exn Choice :=
   match Url.urlsplit v6ok value [] with
@@ -58,8 +78,8 @@ def envProxyParse (v6ok : Str → Bool) (value : Str) : Except Exn Choice :=
       | some u =>
         if u.isEmpty then .ok none
         else match pass with
-          | some pw => .ok (some (u, pw))
-          | none => if Gen.envProxyPasswordOrEmpty then .ok (some (u, [])) else .error (.internal "TypeError")
+          | some pw => .ok (some (unquote u, unquote pw))
+          | none => if Gen.envProxyPasswordOrEmpty then .ok (some (unquote u, [])) else .error (.internal "TypeError")
       | none => .ok none
     match auth with
     | .error e => .error e
